@@ -87,7 +87,7 @@ class Cover:
             push(a2, b)
         return np.inf, best, arg
 
-    def clear(self, a, b, thresh, strict=False, floor=None, resolve=0.0):
+    def clear(self, a, b, thresh, strict=False, floor=None, resolve=0.0, hard=None):
         """Show f > thresh (strict) / f >= thresh on the feasible part of [a, b].
         Returns list of witnesses (c, v) with v below thresh (at most 3); `floor`: a value below which a witness is
         reported as 'far below' (second list)."""
@@ -105,6 +105,9 @@ class Cover:
             ok_pt = (not self.feas) or self.feasible(c)
             if ok_pt and (v < thresh if not strict else v <= thresh) and floor is not None and v < floor:
                 wit.append((c, v))
+                continue
+            if ok_pt and hard is not None and v < hard:
+                wit.append((c, v))     # a concrete evaluation below the hard threshold decides the clause on its own
                 continue
             low = self._low(a, b, c, v, rad)
             if (low > thresh) if strict else (low >= thresh):
@@ -178,9 +181,11 @@ def certify_optimum(f, lo, up, Lfun, decl_pt, decl_val, feas=None, nb_frac=0.005
     wit_low = []
     wit_far = []
     for (a, b) in slabs(lo, up, nlo, nhi):
+        if msgs or wit_low or wit_far:
+            break      # the instance is already decided (violated) by a concrete evaluation: no need to finish the cover
         # far region: nothing below thresh (clause ii) and nothing at or below the best of the neighbourhood (iii)
         goal = max(thresh, min(best_nb, decl_val + tol)) if np.isfinite(best_nb) else thresh
-        w = cov.clear(a, b, goal, strict=True, floor=min(lb_nb, goal), resolve=resolve_frac * tol)
+        w = cov.clear(a, b, goal, strict=True, floor=min(lb_nb, goal), resolve=resolve_frac * tol, hard=thresh)
         for c, v in w:
             if v < thresh:
                 wit_low.append((c, v))
